@@ -428,3 +428,46 @@ func wqAt(q *writeQueue, k int) FrameWriteRequest {
 //@   ensures  wqLen(&old(ws.nodes[streamID]).q) == 0
 //@   ensures  old(ws.nodes[streamID]).state == priorityNodeClosedRFC7540
 //@   noframe
+
+// ---------------------------------------------------------------------------
+// writesched_priority_rfc9218.go: a stream's metadata names the ring it is linked into (C12).
+// CloseStream and AdjustStream unlink a stream from the ring heads[u][i] named by its metadata,
+// so OpenStream and AdjustStream must link it into exactly that ring; otherwise a later unlink
+// clears the head of another ring and its streams are never popped again.
+
+//@ pure
+func rfc9218Head(ws *priorityWriteSchedulerRFC9218, p PriorityParam) *writeQueue {
+	return ws.heads[p.urgency][p.incremental]
+}
+
+//@ pure
+func rfc9218PrioOK(p PriorityParam) bool { return p.urgency < 8 && p.incremental < 2 }
+
+//@ func (*writeQueuePool).get(p) (q)
+//@   requires p != nil
+//@   requires forall k int :: 0 <= k && k < len(*p) ==> (*p)[k] != nil
+//@   ensures  q != nil
+//@   ensures  old(len(*p)) == 0 ==> fresh(q)
+//@   ensures  old(len(*p)) > 0 ==> q == old((*p)[len(*p)-1]) && old(allocated(q))
+//@   modifies *p, elems(*p)
+//@   allocates
+//@
+//@ func (*priorityWriteSchedulerRFC9218).OpenStream(ws, streamID, opt)
+//@   requires ws != nil && ws.streams != nil && ws.streams[streamID].location == nil
+//@   requires rfc9218PrioOK(opt.priority) && rfc9218PrioOK(ws.priorityUpdateBuf.priority)
+//@   requires forall k int :: 0 <= k && k < len(ws.queuePool) ==> ws.queuePool[k] != nil
+//@   ensures  ws.streams[streamID].location != nil
+//@   ensures  streamID != old(ws.priorityUpdateBuf.streamID) ==> (forall u int, i int :: 0 <= u && u < 8 && 0 <= i && i < 2 && (u != int(opt.priority.urgency) || i != int(opt.priority.incremental)) ==> ws.heads[u][i] == old(ws.heads[u][i]))
+//@   ensures  streamID == old(ws.priorityUpdateBuf.streamID) ==> (forall u int, i int :: 0 <= u && u < 8 && 0 <= i && i < 2 && (u != int(old(ws.priorityUpdateBuf.priority.urgency)) || i != int(old(ws.priorityUpdateBuf.priority.incremental))) ==> ws.heads[u][i] == old(ws.heads[u][i]))
+//@   ensures  streamID == old(ws.priorityUpdateBuf.streamID) ==> ws.streams[streamID].priority == old(ws.priorityUpdateBuf.priority)
+//@   ensures  streamID != old(ws.priorityUpdateBuf.streamID) ==> ws.streams[streamID].priority == opt.priority
+//@   requires rfc9218Head(ws, opt.priority) != nil ==> rfc9218Head(ws, opt.priority).prev != nil
+//@   requires rfc9218Head(ws, ws.priorityUpdateBuf.priority) != nil ==> rfc9218Head(ws, ws.priorityUpdateBuf.priority).prev != nil
+//@   requires forall k int :: 0 <= k && k < len(ws.queuePool) && rfc9218Head(ws, opt.priority) != nil ==> rfc9218Head(ws, opt.priority) != ws.queuePool[k] && rfc9218Head(ws, opt.priority).prev != ws.queuePool[k]
+//@   requires forall k int :: 0 <= k && k < len(ws.queuePool) && rfc9218Head(ws, ws.priorityUpdateBuf.priority) != nil ==> rfc9218Head(ws, ws.priorityUpdateBuf.priority) != ws.queuePool[k] && rfc9218Head(ws, ws.priorityUpdateBuf.priority).prev != ws.queuePool[k]
+//@   ensures  streamID == old(ws.priorityUpdateBuf.streamID) && old(rfc9218Head(ws, ws.priorityUpdateBuf.priority)) == nil ==> rfc9218Head(ws, old(ws.priorityUpdateBuf.priority)) == ws.streams[streamID].location && ws.streams[streamID].location.next == ws.streams[streamID].location
+//@   ensures  streamID == old(ws.priorityUpdateBuf.streamID) && old(rfc9218Head(ws, ws.priorityUpdateBuf.priority)) != nil ==> rfc9218Head(ws, old(ws.priorityUpdateBuf.priority)) == old(rfc9218Head(ws, ws.priorityUpdateBuf.priority)) && ws.streams[streamID].location.next == old(rfc9218Head(ws, ws.priorityUpdateBuf.priority))
+//@   ensures  streamID != old(ws.priorityUpdateBuf.streamID) && old(rfc9218Head(ws, opt.priority)) == nil ==> rfc9218Head(ws, opt.priority) == ws.streams[streamID].location && ws.streams[streamID].location.next == ws.streams[streamID].location
+//@   ensures  streamID != old(ws.priorityUpdateBuf.streamID) && old(rfc9218Head(ws, opt.priority)) != nil ==> rfc9218Head(ws, opt.priority) == old(rfc9218Head(ws, opt.priority))
+//@   ensures  streamID != old(ws.priorityUpdateBuf.streamID) && old(rfc9218Head(ws, opt.priority)) != nil ==> ws.streams[streamID].location.next == old(rfc9218Head(ws, opt.priority))
+//@   noframe
